@@ -136,3 +136,21 @@ CHECKS["C07"] = _c(
     "Trusted: the recording trait implementations (they only append to a mutex-protected log) and the reference signers validated by C05/C06/C10/C11. Duplicated Authorization is specified only as 'never authenticated'.",
     "DESIGN.md 3/C07",
 )
+
+CHECKS["C04"] = _c(
+    "exploration",
+    "runtime monitoring: S3Service::call under catch_unwind with a virtual-time hang bound for hostile requests under all 16 service configurations; error responses read by an independent XML reader and compared with an independent error-code table; scripted backend errors for every table code",
+    "harness (raw request driver; corpus captured from aws-sdk-s3)",
+    "(a) An S3Error for every code of the error table and custom codes, with hostile messages / request ids, optional status override and header maps incl. repeated names, returned by the scripted backend through four operations, must be rendered as a well-formed <Error> document with exactly that code, message and request id, the table's (or overridden) status and every attached header. (b) Tens of thousands (quick) to millions (thorough) of grammar-aware mutations of valid SDK-encoded requests, chunk-signed uploads and POST forms plus structured random requests, each under a random one of the 16 {host, auth, access, route} configurations, must each produce an HTTP response - no panic, no transport-level error, no hang - and every response with status >= 400 must be a well-formed S3 error whose status matches the table. Held on the executions observed.",
+    "Trusted: the reference XML reader; the error table read independently from data/s3_error_codes.json and the model's Error$Code documentation (codes on which the two disagree or say N/A get no status expectation). overflow-checks and debug-assertions are on in the harness build, so arithmetic overflow would surface as a panic.",
+    "DESIGN.md 3/C04",
+)
+
+CHECKS["C16"] = _c(
+    "exploration",
+    "runtime monitoring: per-run capturing tracing subscriber (TRACE, every span / event field through Visit), byte search over responses, trace text and Debug / serde renderings for fresh high-entropy secrets and their encodings; positive control",
+    "harness (raw request driver + tracing capture layer)",
+    "The accepted and rejected request classes of C05-C11 (V4 header incl. streaming uploads with intact / corrupted / truncated chunks, V4 presigned inside / outside the window, V2 header / query, POST forms, unknown keys, malformed Authorization) run under a capturing subscriber; status line, headers, body, trailers, body errors, every field of every span and event (in {:?} and {:#?}), the Debug of what the backend was handed (credentials, headers, chunk-verifying stream), and the Debug / pretty Debug / serde JSON / non-human-readable serde renderings of SecretKey, Credentials, SimpleAuth, S3Service and S3Request<T> for every input type are searched for the secret, AWS4+secret and their base64 / hex / percent / Debug-escaped / byte-list forms. A deliberately logged secret must be found (else harness error). Held on what was observed; the evidence lists the tracing callsites inspected.",
+    "Trusted: substring search; secrets are fresh 37-40 character high-entropy strings so accidental matches are impossible. Zeroisation in memory is out of scope.",
+    "DESIGN.md 3/C16",
+)
